@@ -56,7 +56,8 @@ def dpairs(jp):
 
 
 OPERAND_KINDS = ('dict', 'userdict', 'proxy', 'chainmap', 'ordered', 'lri', 'lru', 'dict_reflected',
-                 'userdict_reflected', 'lri_reflected')
+                 'userdict_reflected', 'lri_reflected', 'none', 'int', 'str', 'pairs_list', 'none_reflected')
+NOT_A_MAPPING = ('none', 'int', 'str', 'pairs_list')      # a dict is never equal to one of these
 
 
 def operand(pairs, kind):
@@ -65,6 +66,14 @@ def operand(pairs, kind):
     import types
     d = dict(pairs)
     kind = kind.replace('_reflected', '')
+    if kind == 'none':
+        return None
+    if kind == 'int':
+        return len(d)
+    if kind == 'str':
+        return ''.join(str(k) for k in d)
+    if kind == 'pairs_list':
+        return list(d.items())
     if kind == 'dict':
         return d
     if kind == 'userdict':
@@ -100,6 +109,10 @@ def model_op(op):
         return (name, dk(op[1]))
     if name in ('getd', 'setdefault', 'popd'):
         return (name, dk(op[1]), dk(op[2]))
+    if name == 'getn':              # get(k) with the default left out
+        return ('getd', dk(op[1]), None)
+    if name == 'setdefaultn':       # setdefault(k) with the default left out
+        return ('setdefault', dk(op[1]), None)
     if name in ('update', 'ior'):
         pairs = dpairs(op[1])
         form = op[2] if len(op) > 2 else 'dict'
@@ -110,6 +123,8 @@ def model_op(op):
             pairs = pairs + list(dict(dpairs(op[3])).items())
         return (name, pairs)
     if name in ('eq', 'ne'):
+        if len(op) > 2 and op[2].replace('_reflected', '') in NOT_A_MAPPING:
+            return (name, [(('not', 'a', 'mapping'), 0)])      # compares unequal whatever the contents
         return (name, list(dict(dpairs(op[1])).items()))
     return (name,)
 
@@ -189,6 +204,10 @@ def exec_op(c, op, ctx):
             return ('ok', c.get(dk(op[1]), dk(op[2]))), None
         if name == 'setdefault':
             return ('ok', c.setdefault(dk(op[1]), dk(op[2]))), None
+        if name == 'getn':
+            return ('ok', c.get(dk(op[1]))), None
+        if name == 'setdefaultn':
+            return ('ok', c.setdefault(dk(op[1]))), None
         if name == 'del':
             del c[dk(op[1])]
             return ('ok', None), None
